@@ -2,6 +2,7 @@ package c23
 
 import (
 	"context"
+	"sync/atomic"
 	"crypto/tls"
 	"net"
 	"fmt"
@@ -67,6 +68,7 @@ type world struct {
 
 	mu     sync.Mutex
 	roleAt map[int64]time.Time   // seq of a ROLE reply -> virtual time it was sent
+	slaveAnswers map[string]int  // node -> ROLE replies saying slave so far
 	dialer map[int64]*net.Dialer // conn -> the option set (master / replica / sentinel purpose) it was dialled with
 	issued map[string]*issued
 	seq    int
@@ -252,11 +254,14 @@ func history(run *mon.Run, name string, seed int64) (res caseResult) {
 	idxm := map[string]*fakeredis.Node{}
 	defer srv.Close()
 
-	w := &world{run: run, rng: rng, srv: srv, mode: rng.Intn(3), nodes: idxm, alive: map[string]bool{}, sdown: map[string]bool{}, issued: map[string]*issued{}, name: name, roleAt: map[int64]time.Time{}, dialer: map[int64]*net.Dialer{}}
+	w := &world{run: run, rng: rng, srv: srv, mode: rng.Intn(3), nodes: idxm, alive: map[string]bool{}, sdown: map[string]bool{}, issued: map[string]*issued{}, name: name, roleAt: map[int64]time.Time{}, slaveAnswers: map[string]int{}, dialer: map[int64]*net.Dialer{}}
 	srv.OnEvent = func(e fakeredis.Event) {
 		if e.Kind == "reply" && len(e.Argv) > 0 && strings.EqualFold(e.Argv[0], "ROLE") {
 			w.mu.Lock()
 			w.roleAt[e.Seq] = time.Now()
+			if e.Reply.T == '*' && len(e.Reply.A) > 0 && e.Reply.A[0].S == "slave" {
+				w.slaveAnswers[e.Node]++
+			}
 			w.mu.Unlock()
 		}
 	}
@@ -386,7 +391,7 @@ func history(run *mon.Run, name string, seed int64) (res caseResult) {
 
 	steps := 3 + rng.Intn(6)
 	for st := 0; st < steps; st++ {
-		k := rng.Intn(8)
+		k := rng.Intn(9)
 		switch k {
 		case 0: // plain traffic
 			for _, c := range w.classes() {
@@ -599,6 +604,103 @@ func history(run *mon.Run, name string, seed int64) (res caseResult) {
 			kinds = append(kinds, "r")
 			time.Sleep(100 * time.Millisecond)
 			stay(st, "replica-sdown")
+		case 8: // the established, verified master connection is re-verified at the same address and the node now says slave
+			if !settled || w.mode == 1 {
+				continue
+			}
+			var cands []string
+			for _, d := range w.data {
+				if d != w.cur && w.alive[d] {
+					cands = append(cands, d)
+				}
+			}
+			if len(cands) == 0 {
+				continue
+			}
+			m := w.cur
+			// Dial every wire of the master connection first. Without this the driver also runs into a race inside rueidis that
+			// is reported separately (VERIF_C23_LAZYWIRE=1 brings it back): a wire that is being dialled lazily while
+			// the connection is closed is installed afterwards, so the closed connection keeps serving traffic.
+			if os.Getenv("VERIF_C23_LAZYWIRE") == "" {
+				synctest.Wait()
+				w.traffic(client, st, "w", 48, "")
+				synctest.Wait()
+			}
+			slaves := func() int { w.mu.Lock(); defer w.mu.Unlock(); return w.slaveAnswers[m] }
+			base := slaves()
+			srv.Lock()
+			w.nodes[m].RoleOverride = "slave"
+			srv.Unlock()
+			got, how := 0, "reboot"
+			if rng.Intn(2) == 0 {
+				got = w.emit("+reboot", fmt.Sprintf("master %s %s", masterSet, hp(m)), nil)
+			} else {
+				how = "switch-to-same-address"
+				got = w.emit("+switch-master", fmt.Sprintf("%s %s %s", masterSet, hp(m), hp(m)), nil)
+			}
+			if got == 0 {
+				srv.Lock()
+				w.nodes[m].RoleOverride = ""
+				srv.Unlock()
+				continue
+			}
+			// While the sentinels keep naming a node that says slave the client retries its refresh without pause, so virtual
+			// time stands still: traffic comes from a goroutine that does not sleep, and the episode is ended by the driver
+			// once the node has been probed again (the client is then past the first wrong answer) and more traffic was issued.
+			stopT := make(chan struct{})
+			var tw sync.WaitGroup
+			var sent atomic.Int64
+			tw.Add(1)
+			go func() {
+				defer tw.Done()
+				for i := 0; i < 5000; i++ {
+					select {
+					case <-stopT:
+						return
+					default:
+					}
+					w.traffic(client, st, "w", 1, "")
+					sent.Add(1)
+					runtime.Gosched()
+				}
+			}()
+			mark := int64(-1)
+			for i := 0; i < 4_000_000; i++ {
+				runtime.Gosched()
+				if i%32 == 0 {
+					if mark < 0 && slaves()-base >= 3 {
+						mark = sent.Load()
+					}
+					if mark >= 0 && sent.Load() >= mark+30 {
+						break
+					}
+				}
+			}
+			close(stopT)
+			tw.Wait()
+			run.Observe("reverify_same_address_"+how, 1)
+			if mark >= 0 {
+				run.Observe("reverify_traffic_after_second_probe", 1)
+			}
+			// a new master is reported: the client must settle on it
+			next := cands[rng.Intn(len(cands))]
+			srv.Lock()
+			w.nodes[m].RoleOverride = ""
+			srv.Unlock()
+			w.sdown[next] = false
+			w.cur = next
+			srv.Promote(next)
+			for _, s := range w.sents {
+				w.update(s)
+			}
+			w.emit("+switch-master", fmt.Sprintf("%s %s %s", masterSet, hp(m), hp(next)), nil)
+			w.logf("step %d master %s re-verified (%s) answering slave, then fail-over to %s", st, m, how, next)
+			kinds = append(kinds, "v")
+			time.Sleep(time.Second)
+			synctest.Wait()
+			w.traffic(client, st, "w", 6, next, "failover")
+			settleProbes += 6
+			settled = true
 		case 7: // connections to the data nodes drop; the client re-dials the same address
 			srv.KillAll(w.cur)
 			run.Observe("data_conn_kills", 1)
@@ -669,11 +771,17 @@ func (w *world) judge(log []fakeredis.Event) (nodesHit int) {
 	accepted := map[int64]int64{}       // conn -> seq of accept
 	hit := map[string]bool{}
 	roleSeen := map[int64]bool{}  // conn -> a ROLE was answered on it before
+	streakFirst := map[string]int64{} // node -> seq of its first non-master ROLE answer since it last said master
+	followUp := map[string]int64{}    // node -> seq at which it received the next ROLE probe after that answer
+	streakConn := map[string]int64{}  // node -> connection that gave that first wrong answer
+	closedAt := map[int64]int64{}     // conn -> seq of its close
 	reached := map[string]string{}      // uid -> node (first reception)
 	for _, e := range log {
 		switch e.Kind {
 		case "accept":
 			accepted[e.Conn] = e.Seq
+		case "close":
+			closedAt[e.Conn] = e.Seq
 		case "exec":
 			if len(e.Argv) == 3 && e.Argv[0] == "SENTINEL-EVENT" {
 				f := strings.Split(e.Argv[2], " ")
@@ -696,6 +804,11 @@ func (w *world) judge(log []fakeredis.Event) (nodesHit int) {
 			case "ROLE":
 				if e.Reply.T == '*' && len(e.Reply.A) > 0 {
 					r := e.Reply.A[0].S
+					if r == "master" {
+						streakFirst[e.Node], followUp[e.Node] = 0, 0
+					} else if streakFirst[e.Node] == 0 {
+						streakFirst[e.Node], followUp[e.Node], streakConn[e.Node] = e.Seq, 0, e.Conn
+					}
 					lastRole[e.Node] = &roleAns{Role: r, Seq: e.Seq, Conn: e.Conn, Fresh: !roleSeen[e.Conn], role: r, seq: e.Seq, conn: e.Conn, fresh: !roleSeen[e.Conn]}
 					roleSeen[e.Conn] = true
 					run.Observe("role_answers", 1)
@@ -709,6 +822,9 @@ func (w *world) judge(log []fakeredis.Event) (nodesHit int) {
 				}
 			}
 		case "recv":
+			if len(e.Argv) == 1 && strings.EqualFold(e.Argv[0], "ROLE") && streakFirst[e.Node] != 0 && followUp[e.Node] == 0 {
+				followUp[e.Node] = e.Seq
+			}
 			if len(e.Argv) < 3 || !strings.HasPrefix(e.Argv[0], "VERIF.") {
 				continue
 			}
@@ -738,7 +854,17 @@ func (w *world) judge(log []fakeredis.Event) (nodesHit int) {
 			// The node's last answer was the wrong role. The client certainly knew it if virtual time passed between the
 			// answer and the issue of the command (no latency is injected, and virtual time only advances once every
 			// goroutine of the client is parked); a command issued at the same instant may have been in flight.
-			if is.at.After(w.roleAt[a.seq]) {
+			// In master-only mode the client verifies one address at a time: once the node has received the next ROLE probe,
+			// the client has read the earlier wrong answer; commands issued after that are judged even if no time passed.
+			reprobed := w.mode == 0 && need == "master" && followUp[e.Node] != 0 && is.stamp > followUp[e.Node]
+			if reprobed && !is.at.After(w.roleAt[a.seq]) {
+				closed := "no"
+				if c, ok := closedAt[streakConn[e.Node]]; ok && c < e.Seq {
+					closed = "yes" // the client did close the connection that answered; the command came over a sibling wire that survived
+				}
+				run.Violation("traffic-to-wrong-role", fmt.Sprintf("mode=%d need=%s got=%s issued-after-the-node-was-probed-again answering-connection-closed=%s", w.mode, need, a.role, closed),
+					wit(fmt.Sprintf("the node answered ROLE %s at seq %d, received the client's next ROLE probe at seq %d (so the client had read that answer), and this command was issued at %d", a.role, streakFirst[e.Node], followUp[e.Node], is.stamp)))
+			} else if is.at.After(w.roleAt[a.seq]) {
 				on := "other-purpose-probe"
 				if w.dialer[a.conn] == w.dialer[e.Conn] {
 					on = "same-purpose-probe"
@@ -815,7 +941,7 @@ func TestC23(t *testing.T) {
 	run := mon.Start(t, "C23", "exploration",
 		"one real sentinel client per synctest bubble against fakeredis: 1 master + 1-3 replicas, 1-5 sentinels (some down, some stale), client mode master-only / ReplicaOnly / SendToReplicas, "+
 			"3-8 steps drawn from {traffic, fail-over with +switch-master (clean / new master answering ROLE slave 1-2 times / stale sentinels + crashed old master, events in bursts), loss of the sentinel in use, "+
-			"bursts of unrelated events (+sdown/-sdown/+reboot/+sentinel/other set), replica s_down with a replica claiming master once, data connections killed}, optional concurrent traffic; every user command carries a unique id; "+
+			"bursts of unrelated events (+sdown/-sdown/+reboot/+sentinel/other set), the settled master re-verified at the same address (+reboot master / +switch-master to itself) while it answers ROLE slave with non-sleeping primary traffic, then a real fail-over, replica s_down with a replica claiming master once, data connections killed}, optional concurrent traffic; every user command carries a unique id; "+
 			"the oracle replays the server log: role last answered by the receiving node, addresses named by sentinels, where the post-switch probes arrived; plus a real-time probe of event bursts of 8 and 40 during a refresh. A case is one history; non-trivial when a +switch-master was delivered and traffic reached >= 2 nodes")
 	defer run.Finish()
 	rueidis.VerifSetQueueType("flowbuffer") // set once: pipes are created from background goroutines too
@@ -836,5 +962,5 @@ func TestC23(t *testing.T) {
 		burstProbe(run, 8)
 		burstProbe(run, 40)
 	}
-	run.Require("burst_probe_refresh_completed", "master_traffic_checked", "slave_traffic_checked", "switch_master_delivered", "settle_probes", "failovers_with_role_flip", "failovers_with_stale_sentinels", "sentinel_lost", "role_answers")
+	run.Require("reverify_traffic_after_second_probe", "burst_probe_refresh_completed", "master_traffic_checked", "slave_traffic_checked", "switch_master_delivered", "settle_probes", "failovers_with_role_flip", "failovers_with_stale_sentinels", "sentinel_lost", "role_answers")
 }
